@@ -74,6 +74,14 @@ impl Parser {
 
             let p = caret.get_position();
             let dcs_string = std::mem::take(&mut self.parse_string);
+            #[cfg(icy_engine_verif)]
+            let verif_seq = crate::VERIF_SIXEL_SEQ.fetch_add(1, std::sync::atomic::Ordering::SeqCst);
+            #[cfg(icy_engine_verif)]
+            let handle = thread::spawn(move || {
+                crate::verif_sixel_gate(verif_seq);
+                Sixel::parse_from(p, 1, vertical_scale, bg_color, &dcs_string[i + 1..])
+            });
+            #[cfg(not(icy_engine_verif))]
             let handle = thread::spawn(move || Sixel::parse_from(p, 1, vertical_scale, bg_color, &dcs_string[i + 1..]));
 
             buf.sixel_threads.push_back(handle);
